@@ -149,10 +149,24 @@ func caseC07(c *Ctx) {
 	p.Scale(3, "CacheUnregister", "BuilderNew", "RelSet", "RemoveEntity", "BatchRemoveEntities", "BatchSetRel", "BatchExchange", "RelExchangeBatch", "BatchAdd", "BatchRemove")
 	p.W["Reset"] = 4
 	p.Zero("RegisterType", "Set", "WritePtr")
-	o := Opts{Cache: true, Inv: true, Model: c.Case%2 == 0, Track: true, NoTrans: true}
-	s := RunHistory(c.R, cfg, o, p)
+	o := Opts{Cache: true, Inv: true, Model: c.Case%2 == 0, Track: true}
+	s := NewSess(cfg, o)
+	g := NewGen(c.R, s, p)
+	for i := 0; i < p.Steps && !s.Failed(); i++ {
+		op := g.Next()
+		if isBatchKind(op.K) && op.K != "NewBatch" && i%2 == 0 {
+			if op.Trav%3 != 0 {
+				op.Trav %= 2
+			}
+			if !TwinBatch(s, op, "otherform") {
+				break
+			}
+		} else {
+			s.Do(op)
+		}
+	}
 	n := s.Cov.N
-	finish(c, s, n["batch_via_cached"] >= 1 && (n["table_retires"] >= 1 || !HooksOn) && n["cache_compares"] >= 20)
+	finish(c, s, n["batch_via_cached"] >= 1 && (n["table_retires"] >= 1 || !HooksOn) && n["cache_compares"] >= 20 && n["twin_compares"] >= 1)
 }
 
 // C11: entity events.
